@@ -9,6 +9,7 @@ import (
 	"errors"
 	"fmt"
 	"reflect"
+	"strings"
 	"sync"
 	"time"
 
@@ -245,6 +246,31 @@ type PtrErr struct{ Tag string }
 
 func (e *PtrErr) Error() string { return "ptrerr:" + e.Tag }
 
+// SliceErr is an error whose dynamic type is not comparable (== on it panics).
+type SliceErr []string
+
+func (e SliceErr) Error() string { return "sliceerr:" + strings.Join(e, ",") }
+
+// sameErr: interface equality that never panics (identity of the backing array for
+// non-comparable error types).
+func sameErr(a, b error) bool {
+	if a == nil || b == nil {
+		return a == nil && b == nil
+	}
+	ta, tb := reflect.TypeOf(a), reflect.TypeOf(b)
+	if ta != tb {
+		return false
+	}
+	if ta.Comparable() {
+		return a == b
+	}
+	va, vb := reflect.ValueOf(a), reflect.ValueOf(b)
+	if va.Kind() == reflect.Slice {
+		return va.Pointer() == vb.Pointer() && va.Len() == vb.Len()
+	}
+	return reflect.DeepEqual(a, b)
+}
+
 type ValErr struct{ Tag string }
 
 func (e ValErr) Error() string { return "valerr:" + e.Tag }
@@ -262,6 +288,8 @@ func mkErr(flavor int, tag string) error {
 		return fmt.Errorf("attempt timed out [%s]: %w", tag, context.DeadlineExceeded)
 	case 8:
 		return fmt.Errorf("attempt aborted [%s]: %w", tag, context.Canceled)
+	case 9:
+		return SliceErr{"field", tag}
 	default:
 		return errors.New("sentinel:" + tag)
 	}
@@ -271,6 +299,14 @@ func mkErr(flavor int, tag string) error {
 func errMatches(got, want error) string {
 	if got == nil {
 		return "returned error is nil"
+	}
+	if se, isSlice := want.(SliceErr); isSlice {
+		// errors.Is cannot match a non-comparable target; errors.As must recover the very value
+		var s SliceErr
+		if !errors.As(got, &s) || !sameErr(s, se) {
+			return fmt.Sprintf("errors.As(%q) does not recover the SliceErr value", got)
+		}
+		return ""
 	}
 	if !errors.Is(got, want) {
 		return fmt.Sprintf("errors.Is(%q, %q) is false", got, want)
@@ -490,6 +526,9 @@ func (x *wfExec) fb(leaf int, in any, inErr error) (any, error) {
 		err = mkErr(o.Err, x.tag(leaf, visit, "fb", 0))
 	default:
 		ret = mkPayload(o.Pay, x.tag(leaf, visit, "fb", 0))
+	}
+	if err != nil && o.Pay%2 == 1 {
+		ret = in // a failing fallback may hand a value back together with its error
 	}
 	x.end(seq, ret, err, "")
 	return ret, err
